@@ -17,10 +17,11 @@ RULE = (
     "Well-typed recipes from three generators - core grammar, subroutine call graphs, and a degenerate-shape grammar "
     "(loop first in a routine, bodies that are only Break/Continue, empty Seq/arms, nested empty loops, one-arm Cond, "
     "Return in every position, loops whose cycle has only conditional blocks, adjacent store/load in loops, long "
-    "straight-line code) x versions 2..10 x modes x scratch_slots x frame_pointers x assembleConstants x "
+    "straight-line code), and constant-heavy programs (C12's pool grammar: repeated int/bytes/template/method/address "
+    "constants) x versions 2..10 x modes x scratch_slots x frame_pointers x assembleConstants x "
     "{compileTeal, Compilation.compile}; each compile runs in a fresh thread (user-level stack depth). Oracle: outcome "
     "is TEAL or one of PyTeal's error types; and an independent legality model (docs' minimum versions, mode) => TEAL. "
-    "non-trivial = recipe has a loop or >=3 nested control constructs or is from the degenerate grammar; distinct by recipe."
+    "non-trivial = recipe has a loop or >=3 nested control constructs or is from the degenerate grammar or is a constant-pool program with >=2 kinds of constant; distinct by recipe."
 )
 ASSUMPTIONS = [
     "vf/recipe/legal.py minimum versions follow the PyTeal docs / AVM langspec (conservative: too high only loses coverage)",
@@ -223,7 +224,7 @@ def _configs(draw, recipe, thorough):
             cfg["scratch_slots"] = draw(st.booleans())
         if k & 2:
             cfg["frame_pointers"] = draw(st.booleans())
-        if k == 7 or draw(st.integers(0, 4)) == 0:
+        if k == 7 or draw(st.integers(0, 4)) == 0 or (recipe.get("pool") and k != 0):
             cfg["assemble"] = True
         if draw(st.integers(0, 3)) == 0:
             cfg["api"] = "Compilation"
@@ -233,8 +234,13 @@ def _configs(draw, recipe, thorough):
 
 @st.composite
 def case_strategy(draw, tier):
-    which = draw(st.integers(0, 9))
-    if which <= 3:
+    which = draw(st.integers(0, 11))
+    if which >= 10:
+        # constant-heavy programs (many int/bytes/template/method/address constants with repeated use)
+        from .c12 import pool_recipe
+
+        recipe = draw(pool_recipe())
+    elif which <= 3:
         recipe = draw(degenerate_recipe(LONG[tier]))
     elif which <= 6:
         recipe = draw(gen.core_recipe(max_budget=40 if tier == "quick" else 90))
@@ -258,9 +264,9 @@ def shard(tier, seedv, k, n, col: Collector):
         recipe = case["recipe"]
         tg = {x[0] for x in N.recipe_nodes(recipe)}
         deg = bool(recipe.get("degenerate"))
-        col.cls("gen:" + ("degenerate" if deg else ("sub" if recipe.get("routines") else "core")))
+        col.cls("gen:" + ("degenerate" if deg else ("constant-pool" if recipe.get("pool") else ("sub" if recipe.get("routines") else "core"))))
         nest = max([_nesting(recipe["main"])] + [_nesting(r["body"]) for r in recipe.get("routines", [])])
-        if deg or tg & {"while", "for"} or nest >= 3:
+        if deg or tg & {"while", "for"} or nest >= 3 or (recipe.get("pool") and len(recipe.get("kinds", [])) >= 2):
             col.nontriv(sha(recipe))
         if deg:
             main = recipe["main"][1]
